@@ -7,11 +7,16 @@
  * The *_terminates instance adds a decreases clause (lines left in the stream) to the comment-skipping loop. */
 #include "verif_c.h"
 #include "constants.h"
+#ifdef CAP            /* quick tier only: a shorter line buffer (must exceed 80, the fixed MPS line width) */
+#undef MAX_LINE_LEN
+#define MAX_LINE_LEN (CAP)
+#endif
 
 int g_remaining, g_consumed, g_calls, g_good, g_eof, g_fail;
 char* gp_host; int* gp_lineno;
 const char** gp_f1; const char** gp_f2; const char** gp_f3; const char** gp_f4; const char** gp_f5; _Bool* gp_isint;
 int g_lineno0, g_total;
+int g_maxlen;                              /* == MAX_LINE_LEN, for the loop contracts (loops.json sees no macros) */
 int g_i;                                   /* ghost field index: "for every field i" */
 
 /* ---- strlen / strtok models on m_buf (see the comment in unit.cpp) -------------------------------------------
@@ -80,7 +85,7 @@ __CPROVER_requires(0 <= lineno && lineno <= BIG && g_lineno0 == lineno)
 __CPROVER_requires(0 <= g_remaining && g_remaining <= BIG && g_total == g_remaining && g_consumed == 0 && g_calls == 0)
 __CPROVER_requires(__CPROVER_is_fresh(off, 6 * sizeof(int)) && __CPROVER_is_fresh(end_i, sizeof(int)) && __CPROVER_is_fresh(end_prev, sizeof(int)))
 __CPROVER_requires(__CPROVER_is_fresh(c0, 1) && __CPROVER_is_fresh(lineno_out, sizeof(int)))
-__CPROVER_requires(0 <= g_i && g_i < 6)
+__CPROVER_requires(0 <= g_i && g_i < 6 && g_maxlen == MAX_LINE_LEN)
 __CPROVER_assigns(g_remaining, g_consumed, g_calls, g_good, g_eof, g_fail, gp_save, gp_host, gp_lineno, gp_buf, gp_f1, gp_f2, gp_f3, gp_f4, gp_f5, gp_isint,
                   g_sc_from, g_sc_k, g_sc_e, __CPROVER_object_whole(off), *end_i, *end_prev, *c0, *lineno_out)
 /* every field g_i: NULL, or inside the buffer with a terminator behind it inside the buffer (the terminator's
@@ -102,7 +107,7 @@ void h_readline(void)
 {
    int section, lineno, is_integer, is_new_format; int* off; int* end_i; int* end_prev; char* c0; int* lineno_out;
    g_remaining = nondet_int(); g_consumed = nondet_int(); g_calls = nondet_int(); g_good = nondet_int(); g_eof = nondet_int(); g_fail = nondet_int();
-   g_lineno0 = nondet_int(); g_total = nondet_int(); g_i = nondet_int();
+   g_lineno0 = nondet_int(); g_total = nondet_int(); g_i = nondet_int(); g_maxlen = nondet_int();
    w_readline(section, lineno, is_integer, is_new_format, off, end_i, end_prev, c0, lineno_out);
    CANARY();
 }
